@@ -187,12 +187,25 @@ func c11Sessions(c *Ctx) {
 				continue
 			}
 			w := 1 + r.IntN(3)
-			if err := t.upsert(u, roundrobin.Weight(w)); err != nil {
+			var err error
+			if kind == "rb" && r.IntN(4) == 0 {
+				// the wrapped balancer was populated directly (e.g. before the rebalancer was put on top of it)
+				err = t.rr.UpsertServer(u, roundrobin.Weight(w))
+				c.Count("servers_added_to_inner_balancer_directly", 1)
+			} else {
+				err = t.upsert(u, roundrobin.Weight(w))
+			}
+			if err != nil {
 				c.Violation("upsert/error", err.Error(), nil)
 				return
 			}
 			model[urlKey(u)] = w
 			byKey[urlKey(u)] = u
+		}
+		removeAny := func(u *url.URL) {
+			if err := t.remove(u); err != nil && t.rb != nil {
+				_ = t.rr.RemoveServer(u) // it had been added to the wrapped balancer directly
+			}
 		}
 		poolDesc := func() []string {
 			var o []string
@@ -265,7 +278,7 @@ func c11Sessions(c *Ctx) {
 			case 3: // remove a server other than s0
 				for k := range model {
 					if k != s0 && len(model) > 2 {
-						_ = t.remove(byKey[k])
+						removeAny(byKey[k])
 						delete(model, k)
 						script = append(script, "remove-other")
 						break
@@ -278,7 +291,7 @@ func c11Sessions(c *Ctx) {
 						if _, dup := model[urlKey(u)]; dup {
 							break
 						}
-						_ = t.remove(byKey[k])
+						removeAny(byKey[k])
 						delete(model, k)
 						_ = t.upsert(u, roundrobin.Weight(1))
 						model[urlKey(u)] = 1
@@ -333,7 +346,7 @@ func c11Sessions(c *Ctx) {
 			negs = append(negs, neg{"expired", v0, true})
 		}
 		if r.IntN(2) == 0 && len(model) > 2 {
-			_ = t.remove(byKey[s0])
+			removeAny(byKey[s0])
 			delete(model, s0)
 			script = append(script, "remove-s0")
 			if r.IntN(2) == 0 { // replaced at once by a new server: the pool size does not change
